@@ -601,7 +601,7 @@ def main(argv):
     c = sub.add_parser('check')
     c.add_argument('prop')
     c.add_argument('--tier', default=os.environ.get('VERIF_TIER', 'quick'), choices=['quick', 'thorough'])
-    c.add_argument('--jobs', type=int, default=int(os.environ.get('VERIF_JOBS', '12')))
+    c.add_argument('--jobs', type=int, default=None, help='parallel solver queries (default: VERIF_JOBS, else 12 in the quick tier and 6 in the thorough tier, whose queries need several GB each)')
     c.add_argument('--keep', action='store_true')
     c.add_argument('--only', action='append')
     c.add_argument('--thorough-only', action='store_true', help='run only the thorough-tier harnesses (validation aid; writes no evidence)')
@@ -612,6 +612,8 @@ def main(argv):
     sub.add_parser('selftest')
     a = ap.parse_args(argv)
     if a.cmd == 'check':
+        if a.jobs is None:
+            a.jobs = int(os.environ.get('VERIF_JOBS', '6' if (a.thorough_only or a.tier == 'thorough') else '12'))
         return check(a.prop, 'thorough' if a.thorough_only else a.tier, a.jobs, a.keep, a.only, a.thorough_only)
     if a.cmd == 'replay':
         return replay(a.path)
